@@ -175,21 +175,7 @@ def run(prog, rep, tier, cfg):
                 X.arg_has('K10', 'withdraw:nominal', c, 2, ['T:fil_actor_market::escrow_address.0'], 'escrow entry of the nominal (resolved) address', narrow=False)
                 X.arg_has('K10', 'withdraw:requested', c, 3, ['F:WithdrawBalanceParams.amount'], 'requested amount', narrow=False)
     X.guard('K6b', 'withdraw:non-negative', W, [c.bb for c in snd], m_rel('lt', ['F:WithdrawBalanceParams.amount'], ['C:zero'], False), 'negative amount => Err')
-    EA = X.fn('escrow_address', CR)
-    comps = {i: ret_components(prog, EA, i) for i in (0, 1, 2)}
-    miner = [k for k in range(len(comps[1])) if has_atom(comps[1][k], 'T:fil_actor_market::request_miner_control_addrs.0')]
-    plain = [k for k in range(len(comps[1])) if k not in miner]
-    rep.need('K10', 'escrow_address:two-shapes', len(miner) == 1 and len(plain) == 1, 'one result for miners and one for everybody else', X.loc(EA))
-    if len(miner) == 1 and len(plain) == 1:
-        m, p = miner[0], plain[0]
-        rep.need('K10', 'escrow_address:miner-recipient-is-owner', has_atom(comps[1][m], 'T:fil_actor_market::request_miner_control_addrs.0') and not has_atom(comps[1][m], 'T:fil_actor_market::request_miner_control_addrs.1'),
-                 'a miner\'s funds go to its owner', X.loc(EA))
-        rep.need('K10', 'escrow_address:miner-approvers', has_all(comps[2][m], ['T:fil_actor_market::request_miner_control_addrs.0', 'T:fil_actor_market::request_miner_control_addrs.1']) and not has_atom(comps[2][m], 'P:2'),
-                 'owner and worker may withdraw for a miner', X.loc(EA))
-        rep.need('K10', 'escrow_address:plain-self', has_atom(comps[1][p], 'C:Runtime::resolve_address') and has_atom(comps[2][p], 'C:Runtime::resolve_address') and not has_atom(comps[2][p], 'C:request_miner_control_addrs'),
-                 'everybody else withdraws to, and only by, itself', X.loc(EA))
-    X.guard('K6b', 'escrow_address:miner-branch', EA, [c.bb for c in EA.calls if callee_is('request_miner_control_addrs')(c)],
-            m_rel('eq', ['C:Runtime::resolve_builtin_actor_type'], ['E:Type::Miner'], True), 'control addresses are requested only for miner actors')
+    withdraw_gates(prog, rep, X)
     # the other end of escrow_address for miners: the market asks the miner itself, and the miner answers with its owner / worker
     RM = X.fn('request_miner_control_addrs', CR)
     q = [c for c in RM.calls if sendsmod.is_send(c)]
@@ -219,6 +205,29 @@ def run(prog, rep, tier, cfg):
                 X.arg_has('K10', 'add_balance:credits-received-value', c, 3, ['C:MessageInfo::value_received'], 'escrow is credited with exactly the value received', narrow=False)
                 X.arg_has('K10', 'add_balance:nominal', c, 2, ['T:fil_actor_market::escrow_address.0'], 'under the nominal address', narrow=False)
     X.guard('K6b', 'add_balance:positive', AB, [c.bb for c in AB.calls if (c.defp or '') == TX], m_rel('le', ['C:MessageInfo::value_received'], ['C:zero'], False), 'value <= 0 => Err')
+
+
+def withdraw_gates(prog, rep, X, prefix=''):
+    """who may withdraw a participant's escrow, and to whom it is paid (also part of C11: market.WithdrawBalance validates its
+    caller against exactly the approved set computed here)"""
+    EA = X.fn('escrow_address', CR)
+    comps = {i: ret_components(prog, EA, i) for i in (0, 1, 2)}
+    miner = [k for k in range(len(comps[1])) if has_atom(comps[1][k], 'T:fil_actor_market::request_miner_control_addrs.0')]
+    plain = [k for k in range(len(comps[1])) if k not in miner]
+    rep.need('K10', prefix + 'escrow_address:two-shapes', len(miner) == 1 and len(plain) == 1, 'one result for miners and one for everybody else', X.loc(EA))
+    if len(miner) == 1 and len(plain) == 1:
+        m, p = miner[0], plain[0]
+        rep.need('K10', prefix + 'escrow_address:miner-recipient-is-owner', has_atom(comps[1][m], 'T:fil_actor_market::request_miner_control_addrs.0') and not has_atom(comps[1][m], 'T:fil_actor_market::request_miner_control_addrs.1')
+                 and not has_atom(comps[1][m], 'T:fil_actor_market::request_miner_control_addrs.2'), 'a miner\'s funds go to its owner', X.loc(EA))
+        wide = X.S.local(EA, 0)
+        extra_src = sorted(atom_str(a) for a in comps[2][m] if (a[0] in ('T', 'P') or a[0] == 'F' and a[1].startswith('fil_actor')) and
+                           not (a[0] == 'T' and str(a[2]) in ('0', '1') and (a[1] or '').endswith('request_miner_control_addrs')))
+        rep.need('K10', prefix + 'escrow_address:miner-approvers', has_all(comps[2][m], ['T:fil_actor_market::request_miner_control_addrs.0', 'T:fil_actor_market::request_miner_control_addrs.1']) and not extra_src,
+                 'exactly owner and worker may withdraw for a miner (not its control addresses, not the caller); other sources found: %s' % extra_src, X.loc(EA))
+        rep.need('K10', prefix + 'escrow_address:plain-self', has_atom(comps[1][p], 'C:Runtime::resolve_address') and has_atom(comps[2][p], 'C:Runtime::resolve_address') and not has_atom(comps[2][p], 'C:request_miner_control_addrs'),
+                 'everybody else withdraws to, and only by, itself', X.loc(EA))
+    X.guard('K6b', prefix + 'escrow_address:miner-branch', EA, [c.bb for c in EA.calls if callee_is('request_miner_control_addrs')(c)],
+            m_rel('eq', ['C:Runtime::resolve_builtin_actor_type'], ['E:Type::Miner'], True), 'control addresses are requested only for miner actors')
 
 
 def ret_components(prog, f, idx):
